@@ -33,7 +33,7 @@ ASSUMPTIONS = [
 ]
 NONTRIVIAL = ["cell"]
 EXHAUSTIVE = {"quick": False, "thorough": True}
-DEADLINE = {"quick": 70, "thorough": 1200}
+DEADLINE = {"quick": 90, "thorough": 1200}
 
 QUICK_SC = ["ssl3-rsa", "tls10-dhe_rsa", "tls12-ecdhe_rsa-clientauth",
             "tls12-resume-ticket", "tls12-resume-id", "tls12-srp",
